@@ -20,6 +20,7 @@ EXPLANATION = (
     "writing (C02-c); (c) Job.move maps ENOENT / destination-exists / EXDEV and re-raises everything else (C04-b)."
     ' (e) remove() attempts the deletion unconditionally (no existence probe in front of rmtree: a probe answers False for every failing stat).'
     ' (f) `signac move` does not fall back to copy-and-delete (C11-f); (g) the transfer step of an import deletes nothing (C11-g).'
+    ' C11-a covers signac.sync and signac.import_export as well.'
 )
 UNDECIDED = ("What the workspace looks like after a process death at each file-system step, torn writes and double faults need "
              "execution under fault injection or a model and are not decided by this analysis.")
